@@ -21,19 +21,67 @@ GREETING = b"\xff" + b"\x00" * 8 + b"\x7f" + b"\x03" + b"\x00NULL" + b"\x00" * 1
 
 
 class LogWriter:
+    """Recording stand-in for asyncio.StreamWriter.  Like the real one, drain() on a connection that was closed raises
+    ConnectionResetError (StreamWriter.drain -> FlowControlMixin._drain_helper after connection_lost)."""
+
     def __init__(self, chan, log):
         self.chan = chan
         self.log = log
         self.closed = False
 
     def write(self, data):
-        self.log.append((self.chan, bytes(data)))
+        if not self.closed:
+            self.log.append((self.chan, bytes(data)))
 
     async def drain(self):
         await asyncio.sleep(0)
+        if self.closed:
+            raise ConnectionResetError("Connection lost")
 
     def close(self):
         self.closed = True
+
+
+class Reassembler:
+    """Turns the sequence of writes of one channel into complete multipart messages, whatever the write granularity:
+    a message is emitted at the position of the write that completes it."""
+
+    def __init__(self):
+        self.buf = b""
+
+    def feed(self, raw):
+        self.buf += raw
+        out = []
+        while True:
+            msg, used = self._take()
+            if msg is None:
+                break
+            out.append(self.buf[:used])
+            self.buf = self.buf[used:]
+        return out
+
+    def _take(self):
+        pos = 0
+        b = self.buf
+        while True:
+            if pos >= len(b):
+                return None, 0
+            flag = b[pos]
+            if flag & 2:
+                if pos + 9 > len(b):
+                    return None, 0
+                n = int.from_bytes(b[pos + 1 : pos + 9], "big")
+                pos += 9
+            else:
+                if pos + 2 > len(b):
+                    return None, 0
+                n = b[pos + 1]
+                pos += 2
+            if pos + n > len(b):
+                return None, 0
+            pos += n
+            if not flag & 1:
+                return True, pos
 
 
 def zmtp_encode(parts):
@@ -103,6 +151,8 @@ def decode_out(chan, raw, key, req_header):
     if parts is None or DELIM not in parts:
         return {"chan": chan, "type": "MOther", "ids": [], "sig_ok": False, "parent_ok": False, "count": None, "undecodable": True}
     i = parts.index(DELIM)
+    if len(parts) < i + 6:
+        return {"chan": chan, "type": "MOther", "ids": [], "sig_ok": False, "parent_ok": False, "count": None, "undecodable": True}
     ids, sig, frames = parts[:i], parts[i + 1], parts[i + 2 :]
     try:
         header, parent, _meta, content = (json.loads(f.decode()) for f in frames[:4])
@@ -192,6 +242,8 @@ async def run_session(hass, sess, idx):
     await settle()
     start = len(log)
     start2 = len(log2)
+    asm = {"ChShell": Reassembler(), "ChIopub": Reassembler()}
+    asm2 = Reassembler()
     second_ok = True
     groups, reqs, tbl = [], [], []
     for n, spec in enumerate(sess["reqs"]):
@@ -208,10 +260,10 @@ async def run_session(hass, sess, idx):
         await settle()
         new = log[start:]
         start = len(log)
-        grp = [decode_out(ch, raw, key.encode(), header) for ch, raw in new]
+        grp = [decode_out(ch, msg, key.encode(), header) for ch, raw in new for msg in asm[ch].feed(raw)]
         if iopub2_r is not None:
             # while connected, the second subscriber must receive exactly the broadcasts the first one receives
-            new2 = [decode_out(ch, raw, key.encode(), header) for ch, raw in log2[start2:]]
+            new2 = [decode_out(ch, msg, key.encode(), header) for ch, raw in log2[start2:] for msg in asm2.feed(raw)]
             start2 = len(log2)
             if new2 != [o for o in grp if o["chan"] == "ChIopub"]:
                 second_ok = False
